@@ -2,6 +2,7 @@ import Np.Proofs.Walk
 import Np.Proofs.Index
 import Np.Model.Compare
 import Np.Proofs.Compare
+import Np.Proofs.CompareArr
 /-! C07 — comparison operators form one strict total order: property theorems -/
 namespace Np.Props.C07
 open Np.Ord
@@ -84,6 +85,63 @@ theorem columns_trichotomy (hnd : expos.Nodup) (c1 c2 : List K) :
 theorem columns_asymm (hnd : expos.Nodup) (c1 c2 : List K) (h1 : ColGt graded reverse expos z c1 c2)
     (h2 : ColGt graded reverse expos z c2 c1) : False := colGt_asymm graded reverse expos z hnd c1 c2 h1 h2
 end executable
+
+/-! ### on arrays, element by element, in terms of the polynomials denoted (Np/Proofs/CompareArr.lean) -/
+section arrays
+open MvPolynomial Np.Index
+variable {R : Type} [CommSemiring R] [BEq R] [LawfulBEq R] {n : Nat}
+
+/-- `==` on arrays decides equality of the denoted elements; `!=` is its negation -/
+theorem equal_decides_equality (a b : Poly (Vec R n)) (ha : WF a) (hb : WF b) (i : Fin n) :
+    ((equalArr a b).get i = true ↔ denAt a i = denAt b i) ∧
+    ((notEqualArr a b).get i = true ↔ denAt a i ≠ denAt b i) :=
+  ⟨equalArr_spec a b ha hb i, notEqualArr_spec a b ha hb i⟩
+
+/-- **one strict total order on every element**: for a linearly ordered coefficient type, at each position exactly one
+of `a > b`, `a == b`, `a < b` holds; `>=` is `not <`, `<=` is `not >` — whatever the operands' names, terms, and the
+sort options -/
+theorem array_trichotomy [LinearOrder R] (graded reverse : Bool) (a b : Poly (Vec R n)) (i : Fin n) :
+    let G := (compareArr (fun x y => decide (x < y)) .gt graded reverse a b).get i
+    let E := (equalArr a b).get i
+    let L := (compareArr (fun x y => decide (x < y)) .lt graded reverse a b).get i
+    (G = true ∨ E = true ∨ L = true) ∧ ¬ (G = true ∧ E = true) ∧ ¬ (G = true ∧ L = true) ∧
+      ¬ (E = true ∧ L = true) :=
+  compareArr_trichotomy graded reverse a b i
+theorem array_ge_is_not_lt [LinearOrder R] (graded reverse : Bool) (a b : Poly (Vec R n)) (i : Fin n) :
+    (compareArr (fun x y => decide (x < y)) .ge graded reverse a b).get i = true ↔
+      ¬ (compareArr (fun x y => decide (x < y)) .lt graded reverse a b).get i = true :=
+  compareArr_ge_iff graded reverse a b i
+theorem array_le_is_not_gt [LinearOrder R] (graded reverse : Bool) (a b : Poly (Vec R n)) (i : Fin n) :
+    (compareArr (fun x y => decide (x < y)) .le graded reverse a b).get i = true ↔
+      ¬ (compareArr (fun x y => decide (x < y)) .gt graded reverse a b).get i = true :=
+  compareArr_le_iff graded reverse a b i
+
+/-- **`>` reads the documented order off the denoted polynomials**: `a > b` at position `i` iff at the largest
+monomial (in the selected order) where the two elements' coefficients differ, `a`'s coefficient is the larger -/
+theorem array_greater_is_documented_order [LinearOrder R] (graded reverse : Bool) (a b : Poly (Vec R n))
+    (ha : WF a) (hb : WF b) (i : Fin n) :
+    (compareArr (fun x y => decide (x < y)) .gt graded reverse a b).get i = true ↔
+      ∃ e ∈ (alignPair a b).1.expos,
+        coeff (fsN (commonNames a b) e) (denAt b i) < coeff (fsN (commonNames a b) e) (denAt a i) ∧
+        ∀ e' ∈ (alignPair a b).1.expos, glexLt graded reverse e e' = true →
+          coeff (fsN (commonNames a b) e') (denAt a i) = coeff (fsN (commonNames a b) e') (denAt b i) :=
+  compareArr_gt_coeff graded reverse a b ha hb i
+
+/-- `where`, `maximum`, `minimum` place whole elements: the chosen operand's element, nothing mixed -/
+theorem where_selects (rc rn : Bool) (mask : Vec Bool n) (a b : Poly (Vec R n)) (ha : WF a) (hb : WF b) (i : Fin n) :
+    denAt (selectArr rc rn mask a b) i = if mask.get i then denAt a i else denAt b i :=
+  selectArr_elem rc rn mask a b ha hb i
+theorem maximum_is_greater_operand (lt : R → R → Bool) (hirr : ∀ x, lt x x = false) (rc rn graded reverse : Bool)
+    (a b : Poly (Vec R n)) (ha : WF a) (hb : WF b) (i : Fin n) :
+    denAt (maximumArr lt rc rn graded reverse a b) i =
+      if (compareArr lt .gt graded reverse a b).get i then denAt a i else denAt b i :=
+  maximumArr_elem lt hirr rc rn graded reverse a b ha hb i
+theorem minimum_is_lesser_operand (lt : R → R → Bool) (hirr : ∀ x, lt x x = false) (rc rn graded reverse : Bool)
+    (a b : Poly (Vec R n)) (ha : WF a) (hb : WF b) (i : Fin n) :
+    denAt (minimumArr lt rc rn graded reverse a b) i =
+      if (compareArr lt .lt graded reverse a b).get i then denAt a i else denAt b i :=
+  minimumArr_elem lt hirr rc rn graded reverse a b ha hb i
+end arrays
 
 /-- non-vacuity: `-q0**2 > 4*q0` is false and `q0**2+3 > 4*q0` is true (rows: monomial rank, a, b) -/
 example : greaterWalk (decide ((0:Int) < 0)) [((0:Nat), (0:Int), (0:Int)), (1, 0, 4), (2, -1, 0)] = false ∧
